@@ -148,7 +148,26 @@ pub fn steer_codec(seed: u64, target: usize, c: u8, a: bool) -> Result<Vec<SEntr
     Ok(best)
 }
 
+/// keeps the fat entries of shape 2 inside the tile-id domain
+const ID_END_GUARD: u64 = crate::model::entries::ID_END - (1 << 51);
+
 pub fn build_entries(c: &Case) -> Result<Vec<SEntry>, Fail> {
+    if c.shape == 2 {
+        // few but fat entries: every field near the top of its range (id deltas >= 2^49, runs and lengths >= 2^28,
+        // explicit offsets up to 2^62), 25-30 bytes each - a list of a few hundred entries overflows the root
+        let mut r = Sm(c.seed ^ 0xfa7);
+        let mut id = r.below(1 << 20);
+        let mut out = Vec::with_capacity(c.target as usize);
+        for _ in 0..c.target {
+            let run = (1u32 << 28) + r.below(1 << 28) as u32;
+            out.push(SEntry { id, off: (1u64 << 61) + r.below(1 << 60), len: (1u32 << 28) + r.below((1u64 << 32) - (1 << 28)) as u32, run });
+            id += u64::from(run) + (1u64 << 49) + r.below(1 << 49);
+            if id >= ID_END_GUARD {
+                break;
+            }
+        }
+        return Ok(out);
+    }
     if c.shape == 1 {
         // long but highly compressible list: under a codec it fits a single root although it has far more
         // entries than an uncompressed root could hold
@@ -371,6 +390,12 @@ pub fn run(ctx: &Ctx) {
     for (k, n) in [16_384u32, 17_000, 20_000, 33_000, 40_000, 70_000].iter().enumerate() {
         for start in [1u32, 2, 3] {
             shaped.push(Case { shape: (k % 2) as u8, seed: ctx.seed + 50 + k as u64, target: *n, by_count: true, codec: 1, start: Some(start), asyncw: (k + start as usize) % 2 == 1, pos0: if k % 3 == 1 { 77 } else { 0 } });
+        }
+    }
+    // a few hundred fat entries (25-30 bytes each): more than 16 KiB although the list is short
+    for (k, n) in [500u32, 560, 581, 600, 640, 676, 677, 700, 1200].iter().enumerate() {
+        for codec in [1u8, 2, 4] {
+            shaped.push(Case { shape: 2, seed: ctx.seed + 900 + k as u64, target: *n, by_count: true, codec, start: [None, Some(4096), Some(64)][k % 3], asyncw: (k + usize::from(codec)) % 2 == 1, pos0: 0 });
         }
     }
     run_list(ctx, "compressible-and-tiny-leaf-lists", &shaped, check);
